@@ -46,13 +46,13 @@ pub fn api_case(r: &mut Rng, n_servers: usize, use_async: bool) -> String {
     simclock::unmap_all();
     simclock::NONBLOCKING_SOCKETS.store(false, std::sync::atomic::Ordering::SeqCst);
     tape_seed(r.next());
-    // the nodes run in their own threads: the virtual clock creeps forward at a quarter of real time, so that a lost
-    // datagram ends in a request timeout (2 s of real time) instead of a hang, and no timeout fires on a merely slow run
+    // the nodes run in their own threads: the virtual clock creeps forward at a tenth of real time, so that a lost
+    // datagram ends in a request timeout (5 s of real time) instead of a hang, and no timeout fires on a merely slow run
     let stop = std::sync::Arc::new(std::sync::atomic::AtomicBool::new(false));
     let stop2 = stop.clone();
     let ticker = std::thread::spawn(move || {
         while !stop2.load(std::sync::atomic::Ordering::SeqCst) {
-            std::thread::sleep(std::time::Duration::from_millis(20));
+            std::thread::sleep(std::time::Duration::from_millis(50));
             simclock::advance_ms(5);
         }
     });
